@@ -360,6 +360,193 @@ def r4(k: Kit) -> None:
               'a file stays open when the copy fails', fi.loc(fi.node))
 
 
+def r5(k: Kit) -> None:
+    """A read that is not split and retried stays within the server's
+    advertised maximum read length."""
+    rep = k.rep
+    rep.rule('C12.R5', 'SFTPClientFile.read sends a single, un-retried READ '
+             'only when the size is bounded by the server\'s max_read_len '
+             '(or the caller disabled block reads with block_size 0); a '
+             'larger span goes through the parallel reader, which re-requests '
+             'short replies')
+    fi = k.func('sftp.SFTPClientFile.read')
+    g = k.cfg(fi)
+    rd = k.rd(fi)
+    direct = [(n, c) for n, c in k.calls_named(fi, 'read')
+              if dotted(c.func.value) == 'self._handler']
+    rep.floor('C12.R5', 'direct READ sites', len(direct), 1)
+    for n, c in direct:
+        size_arg = dotted(c.args[2]) if len(c.args) > 2 else None
+
+        def val(x, size_arg=size_arg):
+            a = x.ast
+            if x.kind != 'atom':
+                return None
+            if dotted(a) == 'self.read_len':
+                return False
+            if isinstance(a, ast.Compare) and len(a.ops) == 1 and \
+                    isinstance(a.ops[0], (ast.Gt, ast.GtE)) and \
+                    dotted(a.left) == size_arg:
+                deps = depends_on(g, rd, x.id, a.comparators[0])
+                if any(d.endswith('limits.max_read_len') for d in deps):
+                    return False
+            if isinstance(a, ast.Compare) and len(a.ops) == 1 and \
+                    isinstance(a.ops[0], (ast.Lt, ast.LtE)) and \
+                    dotted(a.left) == size_arg:
+                deps = depends_on(g, rd, x.id, a.comparators[0])
+                if any(d.endswith('limits.max_read_len') for d in deps):
+                    return True
+            return None
+        w = g.guarded_by(n.id, val)
+        rep.check(w is None, 'C12.R5', key(fi, 'single READ within the '
+                                           'server limit'),
+                  'the un-split READ is reached only when size <= '
+                  'max_read_len (or block reads are disabled)',
+                  'a single READ larger than the server\'s max_read_len can '
+                  'be sent without the short-read retry: a server that '
+                  'clamps replies to its limit makes read() return a prefix '
+                  'with no error', k.loc(fi, n),
+                  g.describe_path(w) if w else None)
+
+
+def r6(k: Kit) -> None:
+    """Sparse-file range requests keep their window end."""
+    rep = k.rep
+    rep.rule('C12.R6', 'SFTPClientFile.request_ranges: every follow-up '
+             'request covers exactly the rest of the caller\'s span: '
+             'next_offset + next_length == offset + length is an inductive '
+             'invariant of the request loop (linear forms, assignments of '
+             'the loop body applied in order)')
+    fi = k.func('sftp.SFTPClientFile.request_ranges')
+    loops = [x for x in ast.walk(fi.node) if isinstance(x, ast.While)]
+    calls = [c for c in ast.walk(fi.node) if isinstance(c, ast.Call) and
+             is_call(c, 'request_ranges') and len(c.args) == 3]
+    if len(loops) != 1 or len(calls) != 1:
+        rep.error('C12.R6', key(fi, 'shape'), 'request loop not recognised')
+        return
+    loop, call = loops[0], calls[0]
+    a_off, a_len = dotted(call.args[1]), dotted(call.args[2])
+    if not a_off or not a_len:
+        rep.error('C12.R6', key(fi, 'shape'), 'request arguments are not '
+                  'plain variables')
+        return
+    inloop = {id(x) for x in ast.walk(loop)}
+
+    def assigns(nodes):
+        out = [x for x in nodes if isinstance(x, (ast.Assign, ast.AugAssign))
+               and isinstance(x.targets[0] if isinstance(x, ast.Assign)
+                              else x.target, ast.Name)]
+        return sorted(out, key=lambda x: (x.lineno, x.col_offset))
+
+    def run(store, stmts):
+        for st in stmts:
+            tgt = (st.targets[0] if isinstance(st, ast.Assign)
+                   else st.target).id
+            rhs = linear(st.value, lambda e: None)
+            if rhs is None:
+                store[tgt] = {f'?{tgt}@{st.lineno}': 1}
+                continue
+            # substitute current store
+            val = {}
+            for sym, co in rhs.items():
+                rep_ = store.get(sym) if sym else None
+                for s2, c2 in (rep_ or {sym: 1}).items():
+                    val[s2] = val.get(s2, 0) + co * c2
+            if isinstance(st, ast.AugAssign):
+                sign = 1 if isinstance(st.op, ast.Add) else \
+                    -1 if isinstance(st.op, ast.Sub) else None
+                if sign is None:
+                    store[tgt] = {f'?{tgt}@{st.lineno}': 1}
+                    continue
+                old = dict(store.get(tgt, {tgt: 1}))
+                for s2, c2 in val.items():
+                    old[s2] = old.get(s2, 0) + sign * c2
+                val = old
+            store[tgt] = {s2: c2 for s2, c2 in val.items() if c2 != 0}
+        return store
+
+    def total(store):
+        out = {}
+        for v in (a_off, a_len):
+            for s2, c2 in store.get(v, {v: 1}).items():
+                out[s2] = out.get(s2, 0) + c2
+        return {s2: c2 for s2, c2 in out.items() if c2 != 0}
+    want = {'offset': 1, 'length': 1}
+    pre = assigns([x for x in ast.walk(fi.node) if id(x) not in inloop])
+    base = run({}, pre)
+    ok_base = total(base) == want
+    # step: assume the invariant, apply the loop body's assignments
+    step0 = dict(base)
+    step0[a_off] = {'NO': 1}
+    step0[a_len] = {'offset': 1, 'length': 1, 'NO': -1}
+    body = assigns([x for x in ast.walk(loop)])
+    step = run(step0, body)
+    ok_step = total(step) == want
+    rep.check(ok_base, 'C12.R6', key(fi, 'window end: first request'),
+              'first request covers offset .. offset+length',
+              f'first ranges request covers {total(base)}, not '
+              'offset + length', fi.loc(call))
+    rep.check(ok_step, 'C12.R6', key(fi, 'window end preserved'),
+              'next_offset + next_length == offset + length after every '
+              'iteration',
+              f'after one iteration the request window ends at '
+              f'{total(step)} instead of offset + length: from the second '
+              'follow-up request on the window is too short, the server '
+              'reports at_end early and the tail of a sparse file is '
+              'silently dropped', fi.loc(call))
+
+
+def r7(k: Kit) -> None:
+    """Sparse copies reproduce a trailing hole."""
+    rep = k.rep
+    rep.rule('C12.R7', '_SFTPFileCopier.run: in a sparse copy only data '
+             'ranges are written, so every normal path from the range loops '
+             'to the end of run() either sets the destination size from the '
+             'announced total (setstat / truncate with _total_bytes), or has '
+             'established that the last range reached the total, or is a '
+             'non-sparse copy (whose byte count is checked instead)')
+    fi = k.func('sftp._SFTPFileCopier.run')
+    g = k.cfg(fi)
+    rd = k.rd(fi)
+    loops = [n for n in g.nodes if n.kind == 'loop' and
+             isinstance(n.ast, ast.AsyncFor) and
+             dotted(n.ast.iter) == 'ranges']
+    rep.floor('C12.R7', 'range loops', len(loops), 2)
+    sizeset = set()
+    for n in g.nodes:
+        for c in g.calls_at(n):
+            if isinstance(c.func, ast.Attribute) and \
+                    c.func.attr in ('setstat', 'truncate', 'fsetstat') and \
+                    'self._total_bytes' in names_read(c):
+                sizeset.add(n.id)
+
+    def blocked(a, b, label):
+        x = g.nodes[a]
+        e = x.ast
+        if x.kind != 'atom':
+            return False
+        if dotted(e) == 'self._sparse':
+            return label is False            # non-sparse path: other rule
+        if isinstance(e, ast.Compare) and len(e.ops) == 1 and \
+                dotted(e.comparators[0]) == 'self._total_bytes' and \
+                isinstance(e.ops[0], ast.Lt) and \
+                isinstance(e.left, ast.Name):
+            return label is False            # last range reached the end
+        return False
+    for li, lp in enumerate(loops):
+        w = g.path(lp.id, g.exit, blocked_nodes=sizeset, follow_exc=False,
+                   blocked_edge=blocked)
+        rep.check(w is None, 'C12.R7',
+                  key(fi, f'destination size after range loop #{li + 1}'),
+                  'a sparse copy ends by making the destination as long as '
+                  'the source unless the last range already reached it',
+                  'a sparse copy can finish without ever setting the '
+                  'destination length: a source ending in a hole (or being '
+                  'one hole) yields a destination cut at the last data '
+                  'range, and success is reported', k.loc(fi, lp),
+                  g.describe_path(w) if w else None)
+
+
 def run(idx, rep, tier):
     k = Kit(idx, rep)
     rep.assumptions += NOT_DECIDED
@@ -367,3 +554,6 @@ def run(idx, rep, tier):
     r2(k)
     r3(k)
     r4(k)
+    r5(k)
+    r6(k)
+    r7(k)
